@@ -44,10 +44,12 @@ class PC(list):
 
 
 def library_unknowns(events):
-    """names of LIBRARY / module-level objects without a model that this path observed (imports nobody under contract models, e.g. after a
-    helper was renamed and its real body inlined).  Instance state, parameters, locals and closure variables a change introduced are NOT
+    """names of LIBRARY / module-level objects without a model that this path observed INSIDE A CALLEE that was inlined for want of a
+    contract (typically after a helper was renamed and its real body inlined): modular reasoning has nothing to say about such a call.
+    A library call the function under contract makes ITSELF is different: its result is arbitrary and the contract has to hold anyway.  Instance state, parameters, locals and closure variables a change introduced are NOT
     in this list: an obligation that such state can falsify is reported."""
-    return sorted({str(e.data.get('name')) for e in events if e.kind == 'unknown_state_used' and str(e.data.get('name', '')).startswith('module:')})[:8]
+    return sorted({str(e.data.get('name')) for e in events if e.kind == 'unknown_state_used' and str(e.data.get('name', '')).startswith('module:')
+                   and e.data.get('depth', 0) >= 1})[:8]
 
 
 class Builder:
